@@ -381,6 +381,15 @@ def parse_rvalue(s):
         if len(parts) == 2:
             return ("repeat", parse_operand(parts[0]), parts[1].strip())
         return ("array", [parse_operand(p) for p in split_top(inner) if p != ""])
+    # closure aggregate  {closure@file:l:c: l:c} { captured: op, ... }
+    mcl = re.match(r"^(\{closure@[^}]*\})(?: \{ (.*) \})?$", s)
+    if mcl:
+        fields = []
+        if mcl.group(2):
+            for p in split_top(mcl.group(2)):
+                k, v = p.split(":", 1)
+                fields.append((k.strip(), parse_operand(v)))
+        return ("struct", mcl.group(1), fields)
     # struct aggregate  Path { f: op, ... }
     ms = re.match(r"^([^{]+?) \{ (.*) \}$", s)
     if ms:
